@@ -2518,7 +2518,9 @@ class Binop(Elemwise):
             if not changed:
                 return
 
-            return type(parent)(type(self)(left, right), *parent.operands[1:])
+            # keep the other parameters (MethodOperator: name, axis, fill_value)
+            result = self.substitute_parameters({"left": left, "right": right})
+            return type(parent)(result, *parent.operands[1:])
 
     def _node_label_args(self):
         return [self.left, self.right]
